@@ -24,11 +24,27 @@ fn same_obs(a: &Obs, b: &Obs, with_refs: bool, with_mem: bool) -> bool {
 }
 
 /// Compare two runs of the same history. `what` names the two sides.
-fn compare_runs(prop: &'static str, a: &RunOut, b: &RunOut, na: &str, nb: &str, with_refs: bool, with_mem: bool) -> Option<Viol> {
+fn compare_runs(
+    prop: &'static str,
+    a: &RunOut,
+    b: &RunOut,
+    na: &str,
+    nb: &str,
+    with_refs: bool,
+    with_mem: bool,
+) -> Option<Viol> {
     let n = a.trace.len().min(b.trace.len());
     for k in 0..n {
         if !same_obs(&a.trace[k], &b.trace[k], with_refs, with_mem) {
-            return Some(viol!(prop, "observation-differs", "step {} (op #{}) differs: {na} {:?} vs {nb} {:?}", k, a.trace[k].op, a.trace[k], b.trace[k]));
+            return Some(viol!(
+                prop,
+                "observation-differs",
+                "step {} (op #{}) differs: {na} {:?} vs {nb} {:?}",
+                k,
+                a.trace[k].op,
+                a.trace[k],
+                b.trace[k]
+            ));
         }
     }
     match (&a.viol, &b.viol) {
@@ -41,24 +57,67 @@ fn compare_runs(prop: &'static str, a: &RunOut, b: &RunOut, na: &str, nb: &str, 
                 }
             }
             if a.trace.len() != b.trace.len() {
-                return Some(viol!(prop, "length-differs", "{na} made {} steps, {nb} {}", a.trace.len(), b.trace.len()));
+                return Some(viol!(
+                    prop,
+                    "length-differs",
+                    "{na} made {} steps, {nb} {}",
+                    a.trace.len(),
+                    b.trace.len()
+                ));
             }
             if with_mem && a.mem != b.mem {
                 let p = a.mem.iter().zip(b.mem.iter()).position(|(x, y)| x != y);
-                return Some(viol!(prop, "memory-differs", "final memory() differs between {na} and {nb} at byte {:?} (lengths {} / {})", p, a.mem.len(), b.mem.len()));
+                return Some(viol!(
+                    prop,
+                    "memory-differs",
+                    "final memory() differs between {na} and {nb} at byte {:?} (lengths {} / {})",
+                    p,
+                    a.mem.len(),
+                    b.mem.len()
+                ));
             }
             None
         }
         (Some(x), Some(y)) => {
             if x.prop == y.prop && x.sig == y.sig && a.trace.len() == b.trace.len() {
                 // both sides fail the same predicate of another property at the same step: not ours
-                Some(Viol { prop: x.prop, sig: x.sig.clone(), msg: x.msg.clone() })
+                Some(Viol {
+                    prop: x.prop,
+                    sig: x.sig.clone(),
+                    msg: x.msg.clone(),
+                })
             } else {
-                Some(viol!(prop, "one-sided-failure", "{na} failed with {}:{} ({}) after {} steps, {nb} with {}:{} ({}) after {}", x.prop, x.sig, x.msg, a.trace.len(), y.prop, y.sig, y.msg, b.trace.len()))
+                Some(viol!(
+                    prop,
+                    "one-sided-failure",
+                    "{na} failed with {}:{} ({}) after {} steps, {nb} with {}:{} ({}) after {}",
+                    x.prop,
+                    x.sig,
+                    x.msg,
+                    a.trace.len(),
+                    y.prop,
+                    y.sig,
+                    y.msg,
+                    b.trace.len()
+                ))
             }
         }
-        (Some(x), None) => Some(viol!(prop, "one-sided-failure", "only {na} failed: {}:{} {}", x.prop, x.sig, x.msg)),
-        (None, Some(y)) => Some(viol!(prop, "one-sided-failure", "only {nb} failed: {}:{} {}", y.prop, y.sig, y.msg)),
+        (Some(x), None) => Some(viol!(
+            prop,
+            "one-sided-failure",
+            "only {na} failed: {}:{} {}",
+            x.prop,
+            x.sig,
+            x.msg
+        )),
+        (None, Some(y)) => Some(viol!(
+            prop,
+            "one-sided-failure",
+            "only {nb} failed: {}:{} {}",
+            y.prop,
+            y.sig,
+            y.msg
+        )),
     }
 }
 
@@ -93,7 +152,10 @@ impl Prop for C11 {
         // memory() is deliberately not compared: the statement lists offsets, extents, results and
         // counters; the bytes of a recycled, not yet initialised typed allocation legitimately differ
         // (sync leaves a zeroed size field in the old node header, unsync does not) - see DESIGN.md 9.
-        let mode = Mode { trace: true, ..Mode::default() };
+        let mode = Mode {
+            trace: true,
+            ..Mode::default()
+        };
         crate::enga::set_owner(Some("C11"));
         let a = run_history::<sync::Arena>(&case.cfg, &case.ops, mode.clone());
         let b = run_history::<unsync::Arena>(&case.cfg, &case.ops, mode);
@@ -110,7 +172,11 @@ impl Prop for C11 {
             }
         }
         let nontrivial = classes.contains("slow-path") && classes.contains("remainder-split");
-        CaseReport { nontrivial, classes, viol }
+        CaseReport {
+            nontrivial,
+            classes,
+            viol,
+        }
     }
     fn cases(tier: Tier) -> u64 {
         scale(tier, 600_000, 6_000_000)
@@ -152,6 +218,8 @@ impl C17 {
         p.w_drop = 35;
         p.owned_pct = 0;
         p.max_ops = 24;
+        // "in all arena states": also the states a resize leaves behind (unsync only)
+        p.w_truncate = 3;
         p
     }
     fn run_flavor<A: Flavor>(case: &CaseC17) -> (BTreeSet<&'static str>, Option<Viol>) {
@@ -161,7 +229,10 @@ impl C17 {
         r
     }
     fn run_flavor_inner<A: Flavor>(case: &CaseC17) -> (BTreeSet<&'static str>, Option<Viol>) {
-        let mode = Mode { trace: true, ..Mode::default() };
+        let mode = Mode {
+            trace: true,
+            ..Mode::default()
+        };
         let mut ops = case.before.clone();
         ops.push(Op::Clear);
         let cut = ops.len();
@@ -173,20 +244,51 @@ impl C17 {
         }
         // minimum segment size in force at the clear
         let minseg = a.trace[cut - 1].snap.minseg;
-        let mut ops2 = vec![Op::SetMinSeg { v: minseg }];
+        // ... and the capacity: a truncate in the history before the clear is not undone by it, so the fresh arena is
+        // brought to the same capacity first (each step can at most quadruple it)
+        let cap_at_clear = a.trace[cut - 1].snap.capacity;
+        let mut ops2 = Vec::new();
+        if a.classes.contains("truncate-shrink") || a.classes.contains("truncate-grow") {
+            for _ in 0..4 {
+                ops2.push(Op::Truncate {
+                    n: crate::case::Size::Abs(cap_at_clear as u32),
+                });
+            }
+        }
+        ops2.push(Op::SetMinSeg { v: minseg });
+        let pre2 = ops2.len();
         ops2.extend(case.after.iter().cloned());
         let b = run_history::<A>(&case.cfg, &ops2, mode);
         classes.extend(b.classes.iter().copied());
         if let Some(v) = b.viol {
             // the fresh arena fails a predicate the cleared one passed: they are distinguishable
-            return (classes, Some(viol!("C17", "cleared-vs-fresh", "fresh arena failed {}:{} ({}) where the cleared arena did not", v.prop, v.sig, v.msg)));
+            return (
+                classes,
+                Some(viol!(
+                    "C17",
+                    "cleared-vs-fresh",
+                    "fresh arena failed {}:{} ({}) where the cleared arena did not",
+                    v.prop,
+                    v.sig,
+                    v.msg
+                )),
+            );
         }
         // state right after clear vs right after construction + set_minimum_segment_size
-        let pairs = std::iter::once((&a.trace[cut - 1], &b.trace[0])).chain(a.trace[cut..].iter().zip(b.trace[1..].iter()));
+        if b.trace[pre2 - 1].snap.capacity != cap_at_clear {
+            // the fresh arena could not be brought to the capacity of the cleared one (a refused resize): nothing to compare
+            classes.insert("fresh-capacity-not-reached");
+            return (classes, a.foreign.or(b.foreign));
+        }
+        let pairs = std::iter::once((&a.trace[cut - 1], &b.trace[pre2 - 1]))
+            .chain(a.trace[cut..].iter().zip(b.trace[pre2..].iter()));
         for (k, (x, y)) in pairs.enumerate() {
             // whether a clone / drop-arena step applies depends on how many arena values the history before
             // the clear left alive; that is not state of the arena
-            let handle_step = matches!(ops.get(x.op), Some(Op::CloneArena) | Some(Op::DropArena { .. }));
+            let handle_step = matches!(
+                ops.get(x.op),
+                Some(Op::CloneArena) | Some(Op::DropArena { .. })
+            );
             let same = (k == 0 || ((handle_step || x.res == y.res) && x.range == y.range))
                 && x.snap.allocated == y.snap.allocated
                 && x.snap.discarded == y.snap.discarded
@@ -195,14 +297,32 @@ impl C17 {
                 && x.snap.minseg == y.snap.minseg
                 && x.snap.fl == y.snap.fl;
             if !same {
-                return (classes, Some(viol!("C17", "cleared-vs-fresh", "continuation step {k}: cleared arena {:?} vs fresh arena {:?}", x, y)));
+                return (
+                    classes,
+                    Some(viol!(
+                        "C17",
+                        "cleared-vs-fresh",
+                        "continuation step {k}: cleared arena {:?} vs fresh arena {:?}",
+                        x,
+                        y
+                    )),
+                );
             }
         }
         // read-only tail
         if case.cfg.backend == Backend::File && !case.ro_tail.is_empty() {
             let mut ops3 = case.before.clone();
-            ops3.push(Op::Reopen { mode: 2 + (case.ro_tail.len() as u8 & 1), cap: 0, create: false, pb: false, flags: 0 });
-            ops3.extend(case.ro_tail.iter().map(|p| Op::Rewind { pos: *p, raw: false }));
+            ops3.push(Op::Reopen {
+                mode: 2 + (case.ro_tail.len() as u8 & 1),
+                cap: 0,
+                create: false,
+                pb: false,
+                flags: 0,
+            });
+            ops3.extend(case.ro_tail.iter().map(|p| Op::Rewind {
+                pos: *p,
+                raw: false,
+            }));
             let c = run_history::<A>(&case.cfg, &ops3, Mode::default());
             classes.extend(c.classes.iter().copied());
             if let Some(v) = c.viol {
@@ -224,8 +344,20 @@ impl Prop for C17 {
         let mut pa = p.clone();
         pa.prelude_pct = 0;
         pa.w_clear = 0;
-        (cfg_strategy(&p), case_strategy(&p), prop::collection::vec(op_strategy(&pa), 0..=12), prop::collection::vec(crate::case::pos_strategy(), 0..=3))
-            .prop_map(|(cfg, c, after, ro_tail)| CaseC17 { cfg, before: c.ops, after, ro_tail })
+        // whether a truncate applies depends on how many arena values the history before the clear left alive
+        pa.w_truncate = 0;
+        (
+            cfg_strategy(&p),
+            case_strategy(&p),
+            prop::collection::vec(op_strategy(&pa), 0..=12),
+            prop::collection::vec(crate::case::pos_strategy(), 0..=3),
+        )
+            .prop_map(|(cfg, c, after, ro_tail)| CaseC17 {
+                cfg,
+                before: c.ops,
+                after,
+                ro_tail,
+            })
             .boxed()
     }
     fn run(case: &CaseC17) -> CaseReport {
@@ -233,8 +365,14 @@ impl Prop for C17 {
             Fl::Sync => Self::run_flavor::<sync::Arena>(case),
             Fl::Unsync => Self::run_flavor::<unsync::Arena>(case),
         };
-        let nontrivial = (classes.contains("rewind-down") || classes.contains("rewind-up")) && classes.contains("clear") && (classes.contains("recycled") || classes.contains("release-segment"));
-        CaseReport { nontrivial, classes, viol }
+        let nontrivial = (classes.contains("rewind-down") || classes.contains("rewind-up"))
+            && classes.contains("clear")
+            && (classes.contains("recycled") || classes.contains("release-segment"));
+        CaseReport {
+            nontrivial,
+            classes,
+            viol,
+        }
     }
     fn cases(tier: Tier) -> u64 {
         scale(tier, 320_000, 8_000_000)
@@ -247,11 +385,27 @@ impl Prop for C17 {
     }
     fn simplify(c: &CaseC17) -> Vec<CaseC17> {
         let mut out = Vec::new();
-        for b in simplify_case_a(&CaseA { cfg: c.cfg.clone(), ops: c.before.clone() }) {
-            out.push(CaseC17 { cfg: c.cfg.clone(), before: b.ops, after: c.after.clone(), ro_tail: c.ro_tail.clone() });
+        for b in simplify_case_a(&CaseA {
+            cfg: c.cfg.clone(),
+            ops: c.before.clone(),
+        }) {
+            out.push(CaseC17 {
+                cfg: c.cfg.clone(),
+                before: b.ops,
+                after: c.after.clone(),
+                ro_tail: c.ro_tail.clone(),
+            });
         }
-        for a in simplify_case_a(&CaseA { cfg: c.cfg.clone(), ops: c.after.clone() }) {
-            out.push(CaseC17 { cfg: c.cfg.clone(), before: c.before.clone(), after: a.ops, ro_tail: c.ro_tail.clone() });
+        for a in simplify_case_a(&CaseA {
+            cfg: c.cfg.clone(),
+            ops: c.after.clone(),
+        }) {
+            out.push(CaseC17 {
+                cfg: c.cfg.clone(),
+                before: c.before.clone(),
+                after: a.ops,
+                ro_tail: c.ro_tail.clone(),
+            });
         }
         out
     }
@@ -288,18 +442,26 @@ fn c16_huge_reserved<A: Flavor>(case: &CaseC16, k: u8) -> R<BTreeSet<&'static st
     let accepted = match cfg.backend {
         Backend::Vec => {
             what = "alloc";
-            guard("alloc(ctor, huge reserved)", "C16", || opts.alloc::<A>().map(std::mem::forget).is_ok())?
+            guard("alloc(ctor, huge reserved)", "C16", || {
+                opts.alloc::<A>().map(std::mem::forget).is_ok()
+            })?
         }
         Backend::Anon => {
             what = "map_anon";
-            guard("map_anon(huge reserved)", "C16", || opts.map_anon::<A>().map(std::mem::forget).is_ok())?
+            guard("map_anon(huge reserved)", "C16", || {
+                opts.map_anon::<A>().map(std::mem::forget).is_ok()
+            })?
         }
         Backend::File => {
             what = "map_mut";
             let p = fresh_path();
             let _ = std::fs::remove_file(&p);
             let o = opts.with_read(true).with_write(true).with_create_new(true);
-            let r = guard("map_mut(create, huge reserved)", "C16", || unsafe { o.map_mut::<A, _>(&p) }.map(std::mem::forget).is_ok());
+            let r = guard("map_mut(create, huge reserved)", "C16", || {
+                unsafe { o.map_mut::<A, _>(&p) }
+                    .map(std::mem::forget)
+                    .is_ok()
+            });
             let _ = std::fs::remove_file(&p);
             r?
         }
@@ -334,16 +496,35 @@ fn c16_ctor<A: Flavor>(case: &CaseC16) -> R<BTreeSet<&'static str>> {
     let page = page_size();
     let mut path = None;
     let r: Result<A, String> = match cfg.backend {
-        Backend::Vec => guard("alloc(ctor)", "C16", || opts.with_capacity(cap).alloc::<A>())?.map_err(|e| {
-            format!("{e:?}|{}", matches!(e, rarena_allocator::Error::InsufficientSpace { .. }))
+        Backend::Vec => guard("alloc(ctor)", "C16", || {
+            opts.with_capacity(cap).alloc::<A>()
+        })?
+        .map_err(|e| {
+            format!(
+                "{e:?}|{}",
+                matches!(e, rarena_allocator::Error::InsufficientSpace { .. })
+            )
         }),
-        Backend::Anon => guard("map_anon", "C16", || opts.with_capacity(cap).map_anon::<A>())?.map_err(|e| format!("{e:?}|{}", e.kind() == std::io::ErrorKind::InvalidInput)),
+        Backend::Anon => guard("map_anon", "C16", || {
+            opts.with_capacity(cap).map_anon::<A>()
+        })?
+        .map_err(|e| format!("{e:?}|{}", e.kind() == std::io::ErrorKind::InvalidInput)),
         Backend::File => {
             let p = fresh_path();
             let _ = std::fs::remove_file(&p);
-            let o = opts.with_capacity(cap).with_read(true).with_write(true).with_offset(cfg.off_pages as u64 * page as u64);
-            let o = if cfg.create_new { o.with_create_new(true) } else { o.with_create(true) };
-            let r = guard("map_mut(create)", "C16", || unsafe { o.map_mut::<A, _>(&p) })?;
+            let o = opts
+                .with_capacity(cap)
+                .with_read(true)
+                .with_write(true)
+                .with_offset(cfg.off_pages as u64 * page as u64);
+            let o = if cfg.create_new {
+                o.with_create_new(true)
+            } else {
+                o.with_create(true)
+            };
+            let r = guard("map_mut(create)", "C16", || unsafe {
+                o.map_mut::<A, _>(&p)
+            })?;
             path = Some(p);
             r.map_err(|e| format!("{e:?}|{}", e.kind() == std::io::ErrorKind::InvalidInput))
         }
@@ -356,36 +537,167 @@ fn c16_ctor<A: Flavor>(case: &CaseC16) -> R<BTreeSet<&'static str>> {
     match r {
         Err(e) => {
             cleanup(&path);
-            ensure!(!should_fit, "C16", "ctor-refused", "{:?} constructor failed although capacity {cap} >= prefix {d}: {e}", cfg.backend);
+            ensure!(
+                !should_fit,
+                "C16",
+                "ctor-refused",
+                "{:?} constructor failed although capacity {cap} >= prefix {d}: {e}",
+                cfg.backend
+            );
             ensure!(e.ends_with("|true"), "C16", "ctor-error-kind", "{:?} constructor with capacity {cap} < prefix {d} failed with the wrong error: {e}", cfg.backend);
             classes.insert("ctor-refused");
             Ok(classes)
         }
         Ok(a) => {
             let res = (|| -> R {
-                ensure!(should_fit, "C16", "ctor-accepted-small", "{:?} constructor succeeded with capacity {cap} < prefix {d}", cfg.backend);
-                ensure!(a.data_offset() == d, "C16", "data-offset", "data_offset()={} but Options says {d} (reserved {}, unify {}, backend {:?})", a.data_offset(), cfg.reserved, cfg.unify, cfg.backend);
-                ensure!(a.allocated() == d, "C16", "initial-cursor", "fresh arena allocated()={} data_offset {d}", a.allocated());
-                ensure!(a.capacity() == cap as usize, "C16", "acc-capacity", "capacity()={} requested {cap}", a.capacity());
-                ensure!(a.remaining() == cap as usize - d, "C16", "remaining-law", "fresh arena remaining()={}", a.remaining());
-                ensure!(a.reserved_bytes() == cfg.reserved as usize && a.reserved_slice().len() == cfg.reserved as usize, "C16", "reserved-len", "reserved_bytes()={} reserved_slice().len()={} configured {}", a.reserved_bytes(), a.reserved_slice().len(), cfg.reserved);
-                ensure!(a.reserved_slice().iter().all(|b| *b == 0), "C16", "reserved-written", "reserved prefix of a fresh arena is not zero");
-                ensure!(a.unify() == (cfg.unify || file), "C16", "acc-unify", "unify()={} configured {} file {file}", a.unify(), cfg.unify);
-                ensure!(!a.read_only(), "C16", "acc-read-only", "fresh arena is read_only()");
-                ensure!(a.is_map() == (cfg.backend != Backend::Vec), "C16", "acc-is-map", "is_map()={} for {:?}", a.is_map(), cfg.backend);
-                ensure!(a.is_ondisk() == file && a.is_inmemory() == !file, "C16", "acc-ondisk", "is_ondisk()={} is_inmemory()={} for {:?}", a.is_ondisk(), a.is_inmemory(), cfg.backend);
-                ensure!(a.is_map_anon() == (cfg.backend == Backend::Anon) && a.is_map_file() == file, "C16", "acc-map-kind", "is_map_anon()={} is_map_file()={} for {:?}", a.is_map_anon(), a.is_map_file(), cfg.backend);
-                ensure!(a.magic_version() == cfg.magic && a.version() == 0, "C16", "acc-magic", "magic_version()={} version()={} configured {}", a.magic_version(), a.version(), cfg.magic);
-                ensure!(a.page_size() == page, "C16", "acc-page-size", "page_size()={} sysconf {page}", a.page_size());
-                ensure!(a.minimum_segment_size() == cfg.min_seg, "C16", "acc-minseg", "minimum_segment_size()={} configured {}", a.minimum_segment_size(), cfg.min_seg);
-                ensure!(a.refs() == 1, "C16", "acc-refs", "fresh arena refs()={}", a.refs());
-                ensure!(a.memory().len() == cap as usize && a.allocated_memory().len() == d && a.data().is_empty(), "C16", "acc-slices", "memory()/allocated_memory()/data() lengths {} {} {}", a.memory().len(), a.allocated_memory().len(), a.data().len());
+                ensure!(
+                    should_fit,
+                    "C16",
+                    "ctor-accepted-small",
+                    "{:?} constructor succeeded with capacity {cap} < prefix {d}",
+                    cfg.backend
+                );
+                ensure!(
+                    a.data_offset() == d,
+                    "C16",
+                    "data-offset",
+                    "data_offset()={} but Options says {d} (reserved {}, unify {}, backend {:?})",
+                    a.data_offset(),
+                    cfg.reserved,
+                    cfg.unify,
+                    cfg.backend
+                );
+                ensure!(
+                    a.allocated() == d,
+                    "C16",
+                    "initial-cursor",
+                    "fresh arena allocated()={} data_offset {d}",
+                    a.allocated()
+                );
+                ensure!(
+                    a.capacity() == cap as usize,
+                    "C16",
+                    "acc-capacity",
+                    "capacity()={} requested {cap}",
+                    a.capacity()
+                );
+                ensure!(
+                    a.remaining() == cap as usize - d,
+                    "C16",
+                    "remaining-law",
+                    "fresh arena remaining()={}",
+                    a.remaining()
+                );
+                ensure!(
+                    a.reserved_bytes() == cfg.reserved as usize
+                        && a.reserved_slice().len() == cfg.reserved as usize,
+                    "C16",
+                    "reserved-len",
+                    "reserved_bytes()={} reserved_slice().len()={} configured {}",
+                    a.reserved_bytes(),
+                    a.reserved_slice().len(),
+                    cfg.reserved
+                );
+                ensure!(
+                    a.reserved_slice().iter().all(|b| *b == 0),
+                    "C16",
+                    "reserved-written",
+                    "reserved prefix of a fresh arena is not zero"
+                );
+                ensure!(
+                    a.unify() == (cfg.unify || file),
+                    "C16",
+                    "acc-unify",
+                    "unify()={} configured {} file {file}",
+                    a.unify(),
+                    cfg.unify
+                );
+                ensure!(
+                    !a.read_only(),
+                    "C16",
+                    "acc-read-only",
+                    "fresh arena is read_only()"
+                );
+                ensure!(
+                    a.is_map() == (cfg.backend != Backend::Vec),
+                    "C16",
+                    "acc-is-map",
+                    "is_map()={} for {:?}",
+                    a.is_map(),
+                    cfg.backend
+                );
+                ensure!(
+                    a.is_ondisk() == file && a.is_inmemory() == !file,
+                    "C16",
+                    "acc-ondisk",
+                    "is_ondisk()={} is_inmemory()={} for {:?}",
+                    a.is_ondisk(),
+                    a.is_inmemory(),
+                    cfg.backend
+                );
+                ensure!(
+                    a.is_map_anon() == (cfg.backend == Backend::Anon) && a.is_map_file() == file,
+                    "C16",
+                    "acc-map-kind",
+                    "is_map_anon()={} is_map_file()={} for {:?}",
+                    a.is_map_anon(),
+                    a.is_map_file(),
+                    cfg.backend
+                );
+                ensure!(
+                    a.magic_version() == cfg.magic && a.version() == 0,
+                    "C16",
+                    "acc-magic",
+                    "magic_version()={} version()={} configured {}",
+                    a.magic_version(),
+                    a.version(),
+                    cfg.magic
+                );
+                ensure!(
+                    a.page_size() == page,
+                    "C16",
+                    "acc-page-size",
+                    "page_size()={} sysconf {page}",
+                    a.page_size()
+                );
+                ensure!(
+                    a.minimum_segment_size() == cfg.min_seg,
+                    "C16",
+                    "acc-minseg",
+                    "minimum_segment_size()={} configured {}",
+                    a.minimum_segment_size(),
+                    cfg.min_seg
+                );
+                ensure!(
+                    a.refs() == 1,
+                    "C16",
+                    "acc-refs",
+                    "fresh arena refs()={}",
+                    a.refs()
+                );
+                ensure!(
+                    a.memory().len() == cap as usize
+                        && a.allocated_memory().len() == d
+                        && a.data().is_empty(),
+                    "C16",
+                    "acc-slices",
+                    "memory()/allocated_memory()/data() lengths {} {} {}",
+                    a.memory().len(),
+                    a.allocated_memory().len(),
+                    a.data().len()
+                );
                 // first allocation starts at the first suitably aligned offset at or after data_offset
                 let t = crate::types::TYPES[case.first_ty as usize % crate::types::TYPES.len()];
                 if t.size > 0 {
                     let start = (d + t.align - 1) & !(t.align - 1);
                     let ar: &'static A = unsafe { &*(&a as *const A) };
-                    let r = guard("alloc", "C04", || crate::flavor::alloc_typed(ar, case.first_ty as usize % crate::types::TYPES.len(), false))?;
+                    let r = guard("alloc", "C04", || {
+                        crate::flavor::alloc_typed(
+                            ar,
+                            case.first_ty as usize % crate::types::TYPES.len(),
+                            false,
+                        )
+                    })?;
                     if start + t.size <= cap as usize {
                         match r {
                             Ok(mut h) => {
@@ -424,88 +736,128 @@ fn c_has_truncate(ops: &[Op]) -> bool {
 }
 
 fn c16_run_inner(case: &CaseC16) -> CaseReport {
-        if let Some(k) = case.huge_reserved {
-            let r = match case.cfg.flavor {
-                Fl::Sync => c16_huge_reserved::<sync::Arena>(case, k),
-                Fl::Unsync => c16_huge_reserved::<unsync::Arena>(case, k),
-            };
-            return match r {
-                Ok(classes) => CaseReport { nontrivial: true, classes, viol: None },
-                Err(v) => CaseReport { nontrivial: false, classes: BTreeSet::new(), viol: Some(v) },
-            };
-        }
+    if let Some(k) = case.huge_reserved {
         let r = match case.cfg.flavor {
-            Fl::Sync => c16_ctor::<sync::Arena>(case),
-            Fl::Unsync => c16_ctor::<unsync::Arena>(case),
+            Fl::Sync => c16_huge_reserved::<sync::Arena>(case, k),
+            Fl::Unsync => c16_huge_reserved::<unsync::Arena>(case, k),
         };
-        let mut classes = match r {
-            Ok(c) => c,
-            Err(v) => return CaseReport { nontrivial: false, classes: BTreeSet::new(), viol: Some(v) },
+        return match r {
+            Ok(classes) => CaseReport {
+                nontrivial: true,
+                classes,
+                viol: None,
+            },
+            Err(v) => CaseReport {
+                nontrivial: false,
+                classes: BTreeSet::new(),
+                viol: Some(v),
+            },
         };
-        // three backends, unified layout, same history
-        let mut viol = None;
-        if case.delta >= 0 {
-            let mut cfg = case.cfg.clone();
-            cfg.unify = true;
-            cfg.cap_extra = case.delta as u32;
-            cfg.off_pages = 0;
-            let mode = Mode { trace: true, memhash: true, ..Mode::default() };
-            // truncate (and close + reopen, which only a file has) is left out of the lock-step comparison: what it does to bytes at or above allocated()
-            // is backend specific (a file keeps them, a new heap block / anonymous map does not) and the
-            // statement does not say otherwise; it is exercised by the single-backend run below
-            let lock_ops: Vec<Op> = case.ops.iter().filter(|o| !matches!(o, Op::Truncate { .. } | Op::Reopen { .. })).cloned().collect();
-            let run = |b: Backend| {
+    }
+    let r = match case.cfg.flavor {
+        Fl::Sync => c16_ctor::<sync::Arena>(case),
+        Fl::Unsync => c16_ctor::<unsync::Arena>(case),
+    };
+    let mut classes = match r {
+        Ok(c) => c,
+        Err(v) => {
+            return CaseReport {
+                nontrivial: false,
+                classes: BTreeSet::new(),
+                viol: Some(v),
+            }
+        }
+    };
+    // three backends, unified layout, same history
+    let mut viol = None;
+    if case.delta >= 0 {
+        let mut cfg = case.cfg.clone();
+        cfg.unify = true;
+        cfg.cap_extra = case.delta as u32;
+        cfg.off_pages = 0;
+        let mode = Mode {
+            trace: true,
+            memhash: true,
+            ..Mode::default()
+        };
+        // truncate (and close + reopen, which only a file has) is left out of the lock-step comparison: what it does to bytes at or above allocated()
+        // is backend specific (a file keeps them, a new heap block / anonymous map does not) and the
+        // statement does not say otherwise; it is exercised by the single-backend run below
+        let lock_ops: Vec<Op> = case
+            .ops
+            .iter()
+            .filter(|o| !matches!(o, Op::Truncate { .. } | Op::Reopen { .. }))
+            .cloned()
+            .collect();
+        let run = |b: Backend| {
+            let mut c = cfg.clone();
+            c.backend = b;
+            match c.flavor {
+                Fl::Sync => run_history::<sync::Arena>(&c, &lock_ops, mode.clone()),
+                Fl::Unsync => run_history::<unsync::Arena>(&c, &lock_ops, mode.clone()),
+            }
+        };
+        let (v, a, f) = (run(Backend::Vec), run(Backend::Anon), run(Backend::File));
+        classes.extend(v.classes.iter().copied());
+        viol = compare_runs("C16", &v, &a, "Vec", "anon-mmap", true, true)
+            .or_else(|| compare_runs("C16", &v, &f, "Vec", "file-mmap", true, true));
+        if viol.is_none() && !v.trace.is_empty() {
+            classes.insert("three-backends-compared");
+        }
+        // with truncate in the history only the two in-memory backends are compared (a grown file keeps whatever
+        // bytes lay above the cursor, a new heap block or anonymous map starts zeroed - see section 9, entry 8); the
+        // two of them must still agree byte for byte, in particular on what lies above the cursor after growing
+        if viol.is_none() && c_has_truncate(&case.ops) && cfg.flavor == Fl::Unsync {
+            let t_ops: Vec<Op> = case
+                .ops
+                .iter()
+                .filter(|o| !matches!(o, Op::Reopen { .. }))
+                .cloned()
+                .collect();
+            let run2 = |b: Backend| {
                 let mut c = cfg.clone();
                 c.backend = b;
-                match c.flavor {
-                    Fl::Sync => run_history::<sync::Arena>(&c, &lock_ops, mode.clone()),
-                    Fl::Unsync => run_history::<unsync::Arena>(&c, &lock_ops, mode.clone()),
-                }
+                run_history::<unsync::Arena>(&c, &t_ops, mode.clone())
             };
-            let (v, a, f) = (run(Backend::Vec), run(Backend::Anon), run(Backend::File));
-            classes.extend(v.classes.iter().copied());
-            viol = compare_runs("C16", &v, &a, "Vec", "anon-mmap", true, true).or_else(|| compare_runs("C16", &v, &f, "Vec", "file-mmap", true, true));
-            if viol.is_none() && !v.trace.is_empty() {
-                classes.insert("three-backends-compared");
-            }
-            // with truncate in the history only the two in-memory backends are compared (a grown file keeps whatever
-            // bytes lay above the cursor, a new heap block or anonymous map starts zeroed - see section 9, entry 8); the
-            // two of them must still agree byte for byte, in particular on what lies above the cursor after growing
-            if viol.is_none() && c_has_truncate(&case.ops) && cfg.flavor == Fl::Unsync {
-                let t_ops: Vec<Op> = case.ops.iter().filter(|o| !matches!(o, Op::Reopen { .. })).cloned().collect();
-                let run2 = |b: Backend| {
-                    let mut c = cfg.clone();
-                    c.backend = b;
-                    run_history::<unsync::Arena>(&c, &t_ops, mode.clone())
-                };
-                let (v2, a2) = (run2(Backend::Vec), run2(Backend::Anon));
-                viol = compare_runs("C16", &v2, &a2, "Vec", "anon-mmap", true, true);
-                if viol.is_none() && !v2.trace.is_empty() {
-                    classes.insert("vec-and-anon-compared-with-truncate");
-                }
-            }
-            // the whole history (with truncate) on the case's own backend and layout: reserved prefix,
-            // remaining law and accessors are checked after every step by the interpreter
-            // (also when the lock-step runs only tripped over a predicate of another property: what that does
-            // to the reserved prefix is still this property's business)
-            if viol.as_ref().map_or(true, |v| !crate::enga::owns(v.prop, "C16")) {
-                let lock_viol = viol.take();
-                let mut c = case.cfg.clone();
-                c.cap_extra = case.delta as u32;
-                let smode = Mode { below_cursor_reopen: true, ..Mode::default() };
-                let single = match c.flavor {
-                    Fl::Sync => run_history::<sync::Arena>(&c, &case.ops, smode.clone()),
-                    Fl::Unsync => run_history::<unsync::Arena>(&c, &case.ops, smode),
-                };
-                classes.extend(single.classes.iter().copied());
-                viol = match single.viol {
-                    Some(v) if crate::enga::owns(v.prop, "C16") => Some(v),
-                    other => lock_viol.or(other).or(single.foreign),
-                };
+            let (v2, a2) = (run2(Backend::Vec), run2(Backend::Anon));
+            viol = compare_runs("C16", &v2, &a2, "Vec", "anon-mmap", true, true);
+            if viol.is_none() && !v2.trace.is_empty() {
+                classes.insert("vec-and-anon-compared-with-truncate");
             }
         }
-        let nontrivial = classes.contains("reserved-unaligned") || classes.contains("capacity-at-prefix");
-        CaseReport { nontrivial, classes, viol }
+        // the whole history (with truncate) on the case's own backend and layout: reserved prefix,
+        // remaining law and accessors are checked after every step by the interpreter
+        // (also when the lock-step runs only tripped over a predicate of another property: what that does
+        // to the reserved prefix is still this property's business)
+        if viol
+            .as_ref()
+            .map_or(true, |v| !crate::enga::owns(v.prop, "C16"))
+        {
+            let lock_viol = viol.take();
+            let mut c = case.cfg.clone();
+            c.cap_extra = case.delta as u32;
+            let smode = Mode {
+                below_cursor_reopen: true,
+                ..Mode::default()
+            };
+            let single = match c.flavor {
+                Fl::Sync => run_history::<sync::Arena>(&c, &case.ops, smode.clone()),
+                Fl::Unsync => run_history::<unsync::Arena>(&c, &case.ops, smode),
+            };
+            classes.extend(single.classes.iter().copied());
+            viol = match single.viol {
+                Some(v) if crate::enga::owns(v.prop, "C16") => Some(v),
+                other => lock_viol.or(other).or(single.foreign),
+            };
+        }
+    }
+    let nontrivial =
+        classes.contains("reserved-unaligned") || classes.contains("capacity-at-prefix");
+    CaseReport {
+        nontrivial,
+        classes,
+        viol,
+    }
 }
 
 impl Prop for C16 {
@@ -534,11 +886,25 @@ impl Prop for C16 {
         p.w_reopen = 2;
         p.reopen_modes = &[(3, 0), (1, 1), (2, 2), (1, 3)];
         let delta = prop_oneof![4 => -3i32..=3, 1 => -40i32..0, 3 => 4i32..3000];
-        (cfg_strategy(&p), delta, 0u8..crate::types::ntypes() as u8, prop::collection::vec(op_strategy(&p), 0..=p.max_ops), prelude_strategy(), any::<bool>(), prop_oneof![60 => Just(None), 1 => (0u8..24).prop_map(Some)])
+        (
+            cfg_strategy(&p),
+            delta,
+            0u8..crate::types::ntypes() as u8,
+            prop::collection::vec(op_strategy(&p), 0..=p.max_ops),
+            prelude_strategy(),
+            any::<bool>(),
+            prop_oneof![60 => Just(None), 1 => (0u8..24).prop_map(Some)],
+        )
             .prop_map(|(cfg, delta, first_ty, ops, pre, use_pre, huge_reserved)| {
                 let mut all = if use_pre { pre } else { vec![] };
                 all.extend(ops);
-                CaseC16 { cfg, delta, first_ty, ops: all, huge_reserved }
+                CaseC16 {
+                    cfg,
+                    delta,
+                    first_ty,
+                    ops: all,
+                    huge_reserved,
+                }
             })
             .boxed()
     }
@@ -555,6 +921,18 @@ impl Prop for C16 {
         "constructor cases: reserved 0..=4096 (and, one case in 60, u32::MAX-k with a small capacity, where every constructor must fail without a panic or a wrap-around), capacity = prefix + delta (delta -40..3000, dense at -3..=3), unify on/off, Vec/anon/file, both flavours: construction succeeds iff capacity >= Options::data_offset / data_offset_unify (the API's own functions are the reference) and fails with InsufficientSpace (Vec) / InvalidInput (maps); data_offset(), first allocation offset, reserved_slice length, remaining law and the descriptive accessor table match the constructor used (the accessor table, data_offset() and the remaining law are re-checked after every step of every history for every live arena value - clones and reopened files included). Then one generated history is run with unify=true on Vec, anon and file arenas: observation tuples and a hash of memory() equal after every step, final memory() equal. Reserved prefix pattern checked after every step. Non-trivial = reserved not a multiple of 8 or capacity within +-1 of the prefix"
     }
     fn simplify(c: &CaseC16) -> Vec<CaseC16> {
-        simplify_case_a(&CaseA { cfg: c.cfg.clone(), ops: c.ops.clone() }).into_iter().map(|x| CaseC16 { cfg: c.cfg.clone(), delta: c.delta, first_ty: c.first_ty, ops: x.ops, huge_reserved: c.huge_reserved }).collect()
+        simplify_case_a(&CaseA {
+            cfg: c.cfg.clone(),
+            ops: c.ops.clone(),
+        })
+        .into_iter()
+        .map(|x| CaseC16 {
+            cfg: c.cfg.clone(),
+            delta: c.delta,
+            first_ty: c.first_ty,
+            ops: x.ops,
+            huge_reserved: c.huge_reserved,
+        })
+        .collect()
     }
 }
